@@ -35,6 +35,8 @@ Init == /\ tpl \in DOMAIN Templates /\ sched \in Schedules /\ decline \in Declin
                      { [k |-> k, kind |-> f] : k \in 1..Len(Templates[tpl]), f \in FaultKinds }
         /\ (fault.kind = "null" => TakesHandle(Templates[tpl][fault.k]) /\ ~UsesCleared(Templates[tpl][fault.k]))
         /\ (fault.kind = "cbfail" => Writes(Templates[tpl][fault.k]))
+        \* long templates (a COUNT of files): a fault at one call in twenty is enough
+        /\ (Len(Templates[tpl]) > 30 => (fault.k = 0 \/ fault.k % 20 = 5))
         /\ expect = <<>> /\ phase = "init"
 
 \* expected status class of call i: "ok" | "err" | "err_when_fired"
